@@ -124,7 +124,10 @@ class Heap:
         elif isinstance(obj, ttb.ttensor):
             out.extend(self.buffers(obj.core, label + ".core"))
             for n, f in enumerate(obj.factor_matrices):
-                out.append((f"{label}.factor_matrices[{n}]", f))
+                if is_sparse_matrix(f):
+                    out.extend(self.buffers(f, f"{label}.factor_matrices[{n}]"))
+                else:
+                    out.append((f"{label}.factor_matrices[{n}]", f))
         elif isinstance(obj, ttb.sumtensor):
             for n, p in enumerate(obj.parts):
                 out.extend(self.buffers(p, f"{label}.parts[{n}]"))
@@ -229,6 +232,15 @@ class Heap:
 
 class EngineB:
     name = "object-heap"
+
+    @staticmethod
+    def _is_guess(heap, step, operand_ids, o) -> bool:
+        """The known finding is about the *initial guess* handed to the algorithm (or an object that shares its
+        storage through a documented copy=False path) -- not about any other operand of the same call."""
+        for k in step.get("guess_operands", ()):
+            if 0 <= k < len(operand_ids) and heap.find(operand_ids[k]) == heap.find(o):
+                return True
+        return False
 
     def __init__(self, prop: str, steer: List[str]):
         import pyttb as ttb
@@ -376,7 +388,7 @@ class EngineB:
             for o in operand_ids:
                 ch = heap.changed(o)
                 if ch is not None and not (spec.inplace and o == operand_ids[0]):
-                    if spec.known_mutates and spec.known_mutates in tolerate:
+                    if spec.known_mutates and spec.known_mutates in tolerate and self._is_guess(heap, step, operand_ids, o):
                         res.bump("probe:known_" + spec.known_mutates)
                         continue
                     if self.prop == "C05":
@@ -398,7 +410,7 @@ class EngineB:
                 if spec.inplace and heap.find(o) == heap.find(operand_ids[0]):
                     heap.resnap(o)
                     continue
-                if spec.known_mutates and spec.known_mutates in tolerate:
+                if spec.known_mutates and spec.known_mutates in tolerate and self._is_guess(heap, step, operand_ids, o):
                     res.bump("probe:known_" + spec.known_mutates)
                     for q in heap.ids():
                         if heap.find(q) == heap.find(o):
